@@ -268,7 +268,13 @@ impl OpCov {
 
 fn flat_of<T: Form>(rng: &mut Rng) -> Vec<f64> {
     let n = T::arity().unwrap_or_else(|| rng.below(7) as usize);
-    coeffs(rng, n)
+    match rng.below(14) {
+        // the zero function and constant vectors: "nothing to do for a zero operand" shortcuts live here
+        0 => vec![0.0; n],
+        1 => vec![if rng.bool() { 0.0 } else { -0.0 }; n],
+        2 => vec![rng.nice(); n],
+        _ => coeffs(rng, n),
+    }
 }
 
 /// Mul, MulAssign, Neg, Add, Translate on a fixed-degree polynomial type
@@ -394,8 +400,8 @@ pub fn drive_ops(seed: u64, rounds: usize, sink: &mut Sink) -> usize {
         // IntOfLogPoly4: Add, &Add, Neg, Mul, Sub, &Sub, Translate
         {
             let ty = "IntOfLogPoly4";
-            let a = coeffs(rng, 6);
-            let b = coeffs(rng, 6);
+            let a = flat_of::<IntOfLogPoly4>(rng);
+            let b = if rng.below(8) == 0 { a.clone() } else { flat_of::<IntOfLogPoly4>(rng) };
             let s = scalar(rng);
             let pa = IntOfLogPoly4::from_flat(&a);
             let pb = IntOfLogPoly4::from_flat(&b);
@@ -671,9 +677,10 @@ pub fn drive_logint(seed: u64, rounds: usize, sink: &mut Sink) -> usize {
     let mut nontrivial = 0;
     for _ in 0..rounds {
         for len in 1..=9usize {
-            let c: Vec<f64> = match rng.below(3) {
-                0 => (0..len).map(|_| rng.nice()).collect(),
-                1 => (0..len).map(|_| rng.float_exp(-4, 4)).collect(),
+            let c: Vec<f64> = match rng.below(8) {
+                0 | 1 => (0..len).map(|_| rng.nice()).collect(),
+                2 | 3 => (0..len).map(|_| rng.float_exp(-4, 4)).collect(),
+                4 => vec![0.0; len], // the zero function
                 _ => coeffs(&mut rng, len),
             };
             let knot = Knot { x: pos_point(&mut rng), y: if rng.below(3) == 0 { 0.0 } else { rng.float_exp(-6, 6) } };
@@ -853,7 +860,8 @@ pub fn replay_pwint(lines: &[Value], _seed: u64) -> ReplayReport {
 }
 
 fn sorted_pos_ends(rng: &mut Rng, n: usize) -> Vec<f64> {
-    let mut v: Vec<f64> = match rng.below(4) {
+    let mut v: Vec<f64> = match rng.below(5) {
+        4 => (0..n).map(|_| rng.float_exp(-70, -40).abs()).collect(), // far below machine epsilon
         0 => (0..n).map(|_| rng.float_exp(-6, 6).abs()).collect(),
         1 => (0..n).map(|_| (1 + rng.below(6)) as f64 / 2.0).collect(), // duplicates likely
         2 => (0..n).map(|_| 1.0 + rng.unit() * 1e-3).collect(),
@@ -974,7 +982,11 @@ fn spline_xs(rng: &mut Rng, n: usize) -> Vec<f64> {
         4 => 1e6 * (1.0 + rng.unit()),
         _ => rng.float_exp(-20, 20),
     };
-    let scale = match rng.below(5) {
+    let tiny = rng.below(6) == 0;
+    let base = if tiny { 0.0 } else { base };
+    let scale = match if tiny { 9 } else { rng.below(5) } {
+        // the whole abscissa axis far below machine epsilon (gaps < 2.2e-16 are ordinary gaps there)
+        9 => rng.float_exp(-100, -56).abs(),
         0 => 1.0,
         1 => rng.float_exp(-30, -10).abs(),
         2 => rng.float_exp(5, 20).abs(),
